@@ -42,5 +42,7 @@ fn assumptions(ctx: &Ctx) -> Vec<String> {
 }
 
 fn main() {
+    // a runaway execution must die alone (see mc_core::limit_address_space)
+    mc_core::limit_address_space(12 << 30);
     main_entry(Engine { name: "tlv_mc", level, rule, run, replay, assumptions, decode_breadcrumb: None });
 }
